@@ -80,6 +80,8 @@ class SpecEval(object):
                 return self.deref(self.ev(e[2]))
             if op == '+':
                 return self.term(e[2])
+            if op == '&':
+                return self.address_of(e[2])
             raise SpecError('unary %s' % op)
         if k == 'cond':
             c = self.boolean(e[1])
@@ -106,6 +108,26 @@ class SpecEval(object):
             return self.call(e)
         raise SpecError('expr kind %s' % k)
 
+    def address_of(self, e):
+        ex = self.ex
+        if e[0] == 'idx':
+            b = self.ev(e[1])
+            i = self.term(e[2])
+            if isinstance(b, PtrV) and ex.kind(b.elem) == 'array':
+                at_ = ex.U(b.elem)
+                base = b.addr if b.addr is not None else ('obj', b.elem, b.term)
+                return ex.ptr_term(self.st, PtrV(None, at_['elem'], ('idx', base, i, at_['elem'])))
+            if isinstance(b, SliceV):
+                return ex.ptr_term(self.st, PtrV(None, b.elem, ('sel', b, i, b.elem)))
+            raise SpecError('%s: & of index into %r' % (self.what, b))
+        if e[0] == 'sel':
+            b = self.ev(e[1])
+            if isinstance(b, PtrV) and ex.kind(b.elem) == 'struct':
+                fs = [f for f in ex.struct_fields(b.elem) if f['name'] == e[2]]
+                base = b.addr if b.addr is not None else ('obj', b.elem, b.term)
+                return ex.ptr_term(self.st, PtrV(None, fs[0]['type'], ('fld', base, e[2], fs[0]['type'], b.elem)))
+        raise SpecError('%s: cannot take address of %r' % (self.what, e))
+
     def nil_like(self, v):
         if isinstance(v, PtrV):
             return PtrV(ZERO, v.elem)
@@ -123,6 +145,15 @@ class SpecEval(object):
             if c is not None:
                 return c
         b = self.ev(e[1])
+        if isinstance(b, PtrV) and self.ex.kind(b.elem) == 'struct':
+            # load only the selected field
+            fs = [f for f in self.ex.struct_fields(b.elem) if f['name'] == name]
+            if fs:
+                base = b.addr if b.addr is not None else ('obj', b.elem, b.term)
+                a = ('fld', base, name, fs[0]['type'], b.elem)
+                if self.ex.kind(fs[0]['type']) in ('array', 'struct') and self.ex.addr_root(base)[0] != 'cell':
+                    return PtrV(None, fs[0]['type'], a)
+                return self.ex.load(self.st, a)
         b = self.deref(b)
         if isinstance(b, (StructV, SnapV)):
             if name in b.f:
@@ -155,7 +186,7 @@ class SpecEval(object):
             return ex.elem_load(self.st, b.elem, b.arr, add(b.off, i))
         if isinstance(b, SeqV):
             v = select(b.a, add(b.off, i))
-            return v
+            return ex.wrap_scalar(v, b.elem) if ex.kind(b.elem) == 'pointer' else v
         if isinstance(b, StrV):
             h = ex.heap_get(self.st, 'HS:uint8', arr(ARR_II))
             ex.strlit_bytes_fact(self.st, b)
